@@ -1,7 +1,7 @@
 from checks import _level2
 from oracles import level2 as oracle
 
-GEN = []
+GEN = ["Handed"]  # the handedness branch of getBH_level2 (literal, component, factor, position), pinned by Props/C04 source_handedness_branch / left_handed_flips_x
 LEAN_TARGETS = ["MagpyVerif.Props.C04"]
 PROPS = ["MagpyVerif.Props.C04"]
 NOT_SHOWN = {
